@@ -137,8 +137,8 @@ def obj_of(system, mom, vals):
     return vector.obj(**{(MOM.get(n, n) if mom else n): vals[n] for n in names_of(system)})
 
 
-NUMPY_LAYOUTS = ["np()", "np(3)", "np(2,2)", "np(3)-int", "np(0)", "np(1)", "np(2,1,2)", "np(3)-spacelike"]
-AWK_LAYOUTS = ["ak-flat", "ak-jagged", "ak-nested", "ak-option", "ak-record", "ak-rawzip", "ak-regular", "ak-flat-int", "ak-empty", "ak-one", "ak-jagged-spacelike", "ak-record-hits", "ak-record-label"]
+NUMPY_LAYOUTS = ["np()", "np(3)", "np(2,2)", "np(3)-int", "np(0)", "np(1)", "np(2,1,2)", "np(3)-spacelike", "np(3)-strided", "np(3)-readonly", "np(3,1)", "np(1,3)"]
+AWK_LAYOUTS = ["ak-flat", "ak-jagged", "ak-nested", "ak-option", "ak-record", "ak-rawzip", "ak-regular", "ak-flat-int", "ak-empty", "ak-one", "ak-jagged-spacelike", "ak-record-hits", "ak-record-label", "ak-masked", "ak-padnone", "ak-indexed"]
 
 
 def nest(layout):
@@ -147,7 +147,8 @@ def nest(layout):
             "ak-flat": ["E", "E", "E"], "ak-jagged": [["E", "E"], [], ["E"]], "ak-nested": [[["E"], ["E", "E"]], [], [[]]],
             "ak-option": [["E", None], None, ["E"]], "ak-record": "E", "object": "E", "ak-rawzip": [["E", "E"], [], ["E"]], "ak-regular": [["E", "E", "E"], ["E", "E", "E"]], "np(3)-int": ["E", "E", "E"], "ak-flat-int": ["E", "E", "E"],
             "np(0)": [], "np(1)": ["E"], "np(2,1,2)": [[["E", "E"]], [["E", "E"]]], "ak-empty": [], "ak-one": [["E"]],
-            "np(3)-spacelike": ["E", "E", "E"], "ak-jagged-spacelike": [["E", "E"], [], ["E"]], "ak-record-hits": "E", "ak-record-label": "E"}[layout]
+            "np(3)-spacelike": ["E", "E", "E"], "ak-jagged-spacelike": [["E", "E"], [], ["E"]], "ak-record-hits": "E", "ak-record-label": "E", "np(3)-strided": ["E", "E", "E"], "np(3)-readonly": ["E", "E", "E"], "np(3,1)": [["E"], ["E"], ["E"]], "np(1,3)": [["E", "E", "E"]],
+            "ak-masked": [["E", "E"], None, ["E"]], "ak-padnone": [["E", "E", None], [None, None, None], ["E", None, None]], "ak-indexed": [["E"], ["E", "E"], []]}[layout]
 
 
 def fill(struct, f):
@@ -169,9 +170,35 @@ def build(layout, system, mom, rng, extras=False):
         return vector.zip({key(n): ak.Array(np.array([e[n] for e in struct], dtype=np.int64)) for n in names}), struct
     if layout == "object":
         return obj_of(system, mom, struct), struct
+    if layout == "np(3)-strided":
+        # a non-contiguous view: every second element of a longer array
+        filler = one(system, rng)
+        long_ = [x for e in struct for x in (e, filler)]
+        big = vector.array({key(n): np.array([e[n] for e in long_], dtype=np.float64) for n in names})
+        return big[::2], struct
     if layout.startswith("np"):
         cols = {key(n): np.array(struct_map(struct, lambda e, n=n: e[n]) if layout != "np()" else struct[n], dtype=np.float64) for n in names}
-        return vector.array(cols), struct
+        arr = vector.array(cols)
+        if layout == "np(3)-readonly":
+            arr.flags.writeable = False
+        return arr, struct
+    if layout in ("ak-masked", "ak-padnone", "ak-indexed"):
+        full = [[one(system, rng), one(system, rng)], [one(system, rng)], [one(system, rng)]] if layout == "ak-masked" else None
+        if layout == "ak-masked":
+            base = vector.Array(struct_map(full, lambda e: {key(n): e[n] for n in names}))
+            arr = ak.mask(base, [True, False, True])                      # option type made by masking whole lists
+            struct = [full[0], None, full[2]]
+        elif layout == "ak-padnone":
+            lists = [[one(system, rng), one(system, rng)], [], [one(system, rng)]]
+            base = vector.Array(struct_map(lists, lambda e: {key(n): e[n] for n in names}))
+            arr = ak.pad_none(base, 3)                                    # option type made by padding (regular-sized lists of option records)
+            struct = [l + [None] * (3 - len(l)) for l in lists]
+        else:
+            lists = [[], [one(system, rng)], [one(system, rng), one(system, rng)]]
+            base = vector.Array(struct_map(lists, lambda e: {key(n): e[n] for n in names}))
+            arr = base[[1, 2, 0]]                                         # carried / indexed after an integer-array slice
+            struct = [lists[1], lists[2], lists[0]]
+        return arr, struct
     if layout == "ak-empty":
         # an empty array of vectors still has the record type of its vectors
         return vector.zip({key(n): ak.Array(np.zeros(0)) for n in names}), struct
